@@ -113,6 +113,14 @@ def cases(tier, seed):
         cs.append({'gen': 'solve', 'routine': 'amen_solve', 'cls': 'cd', 'N': [rng.randint(4, 9) for _ in range(d)], 'RB': [1] * (d + 1), 'Rb': [1] + [rng.randint(1, 3) for _ in range(d - 1)] + [1],
                    'rhs': ['random', 'image'][i % 2], 'cfac': 1.0, 'conv': [1e-5, 1e-6, 1e-7, 1e-3][i % 4], 'shift': [0.0, 0.1][(i // 4) % 2], 'eps': [1e-10, 1e-9][(i // 2) % 2],
                    'prec': [None, 'c', None, 'r'][(i // 3) % 4], 'max_full': [500, 500, 0][i % 3], 'x0': ['none', 'user'][(i // 6) % 2], 'vseed': rng.randrange(2 ** 40), 'sidx': 0})
+    # directed (defects #43 / #48): tiny right-hand sides with preconditioned GMRES local solves on small systems, as in C12
+    for i in range(8 if not T else 40):
+        cs.append({'gen': 'solve', 'routine': 'amen_solve', 'cls': ['lap', 'spd'][i % 2], 'kfac': 'spd', 'N': [[3, 4, 2, 2], [2, 2, 5, 2], [4, 3, 3], [2, 5, 2, 3]][i % 4], 'RB': [[1, 4, 3, 2, 1], [1, 1, 1, 1, 1], [1, 3, 2, 1], [1, 2, 3, 2, 1]][i % 4],
+                   'Rb': [[1, 2, 4, 3, 1], [1, 2, 1, 2, 1], [1, 3, 3, 1], [1, 2, 2, 2, 1]][i % 4], 'rhs': 'random', 'cfac': 2.7, 'shift': 0.1, 'band': -1, 'eps': [2.3e-7, 6.6e-7, 1e-9, 1e-5][i % 4],
+                   'vseed': 328722089524 + 1000 * i, 'prec': ['c', 'r'][i % 2], 'max_full': 0, 'x0': 'none', 'sidx': 0, 'bscale': [1e-24, 1e-22, 1e-30, 1e-26][i % 4]})
+    # the witness of defect #48 itself (SPD 2x2x5x2, right-hand side of norm 1.9e-24, preconditioner 'c' / 'r', GMRES local solves) and two neighbours
+    for i in range(3):
+        cs.append(dict({'gen': 'solve', 'routine': 'amen_solve', 'cls': 'spd', 'kfac': 'spd', 'N': [2, 2, 5, 2], 'RB': [1, 1, 1, 1, 1], 'Rb': [1, 2, 1, 2, 1], 'rhs': 'random', 'cfac': 2.7320038600794945, 'shift': 0.1, 'eps': 6.611498377516512e-07, 'prec': 'c', 'max_full': 0, 'x0': 'none', 'vseed': 328722089524, 'sidx': 0}, prec=['c', 'r', 'c'][i], eps=[6.611498377516512e-07, 6.6e-7, 1e-8][i], sidx=0))
     for N in ([12, 12, 12], [8, 12, 12]):
         for prec in (None, 'c'):
             cs.append({'gen': 'solve', 'routine': 'amen_solve', 'cls': 'lap', 'N': N, 'RB': [1] * 4, 'Rb': [1, 2, 2, 1], 'rhs': 'random', 'cfac': 1.0, 'shift': 0.0, 'eps': 1e-10, 'prec': prec,
